@@ -596,6 +596,18 @@ def _mode(c, fn, st):
             lcs = [n for n in ast.walk(t) if isinstance(n, ast.ListComp)]
             ok = (len(subs) == 1 and is_argmax(subs[0].slice) and len(lcs) == 1
                   and U(lcs[0].generators[0].iter) == f"self.{st.S[0]}")
+        # the whole store read through the class's own read-out: get_sample(burn=0) with the default thin of 1 (decided by C14) is
+        # every recorded sample, one per row
+        if not ok:
+            for pt_ in ("self.get_sample(burn=0)[_i, :]", "self.get_sample(burn=0)[_i]", "self.get_sample(burn=0, thin=1)[_i, :]",
+                        "self.get_sample(burn=0, thin=1)[_i]", "self.get_sample(0)[_i, :]", "self.get_sample(0)[_i]", "self.get_sample(0, 1)[_i]",
+                        "self.get_sample(0, 1)[_i, :]"):
+                b_ = pmatch(t, pt_)
+                try:
+                    if b_ is not None and is_argmax(ast.parse(b_["_i"], mode="eval").body):
+                        ok = True
+                except SyntaxError:
+                    pass
         why = f"mode returns `{txt}`"
     return struct_ob("mode", qual(c, fn), ok,
                      f"the mode must index the whole sample store {st.S} with argmax of the whole probability store {st.P}: {why}",
